@@ -471,7 +471,7 @@ def hist_c17(seed, cls=None):
 
 
 BAD_KINDS = ['nan_in_y', 'wrong_classes', 'y_index', 'x_not_frame', 'y_not_series', 'missing_column', 'missing_column_dev',
-             'quali_and_quanti', 'strings_in_quanti', 'value_not_in_order', 'bad_sort_by', 'refit', 'transform_missing_column']
+             'quali_and_quanti', 'ordinal_and_quanti', 'strings_in_quanti', 'value_not_in_order', 'bad_sort_by', 'refit', 'transform_missing_column']
 
 
 def _bad_call(rng, kind, spec, h, idx, fitted):
@@ -556,6 +556,21 @@ def _bad_call(rng, kind, spec, h, idx, fitted):
             return None
         col = rng.choice(cols)
         return lambda: target.transform(X.drop(columns=[col]))
+    if kind == 'ordinal_and_quanti':
+        from AutoCarver import carvers
+        if not is_carver:
+            return None
+        feats = spec['features']
+        quanti = [f for f, d in feats.items() if d['kind'] == 'quanti']
+        both = (quanti or list(feats))[0]
+
+        def ctor2():
+            kwc = dict(min_freq=0.1, quantitative_features=list(set(quanti + [both])), ordinal_features=[both],
+                       values_orders={both: ['1', '2', '3']})
+            if spec['cls'] == 'ContinuousCarver':
+                return carvers.ContinuousCarver(**kwc)
+            return getattr(carvers, spec['cls'])(sort_by='cramerv', **kwc)
+        return ctor2
     if kind in ('quali_and_quanti', 'bad_sort_by'):
         # malformed constructor arguments
         from AutoCarver import carvers
